@@ -95,6 +95,19 @@ def generate(prop, rng, index, tier):
                 args["OutFileName"] = "print%d.txt" % len(consumers)
             consumers.append({"name": name, "cmd": cmd, "args": args})
             continue
+        written = [c for c in consumers if c["cmd"] == "EEMSWrite" and c["args"]["OutFileName"].endswith(".nc")]
+        if config == "netcdf" and written and rng.random() < 0.3:
+            w = rng.choice(written)
+            args = {"InFileName": w["args"]["OutFileName"], "InFieldName": rng.choice(w["args"]["OutFieldNames"])}
+            r = rng.random()
+            if r < 0.6:
+                args["DataType"] = rng.choice(["Float", "Integer", "Fuzzy", "Positive Float"])
+            if rng.random() < 0.3:
+                args["MissingValue"] = rng.choice([0, 1, -1, 0.5])
+            consumers.append({"name": name, "cmd": "EEMSRead", "args": args})
+            env[name] = env[producers[0]["name"]]
+            (fz if args.get("DataType") == "Fuzzy" and False else nf).append(name)
+            continue
         if cmd == "EEMSWrite" or (config == "netcdf" and rng.random() < 0.25):
             pool = nf + fz
             if config == "netcdf":
@@ -127,7 +140,9 @@ def generate(prop, rng, index, tier):
         (fz if d["fuzzy"] else nf).append(name)
     order = list(range(len(consumers)))
     return {"engine": ENGINE, "prop": "C09", "config": config, "producers": producers, "consumers": consumers,
-            "final_run": rng.random() < 0.3, "repeat_reads": rng.random() < 0.3}
+            "final_run": rng.random() < 0.3, "repeat_reads": rng.random() < 0.3,
+            # who drives the evaluation: the client runs consumers one by one, or adds them all and calls program.run()
+            "drive": rng.choice(["stepwise", "stepwise", "program-run"])}
 
 
 # ------------------------------------------------------------------------------------------------
@@ -243,7 +258,34 @@ def execute(sc):
                 snaps[p["name"]] = snap(arr)
             if len(sc["producers"][0]["shape"]) >= 2:
                 res.probe("producers of rank >= 2")
-            for c in sc["consumers"]:
+            if sc.get("drive") == "program-run":
+                added = []
+                for c in sc["consumers"]:
+                    try:
+                        program.add_command(program.find_command_class(c["cmd"]), c["name"], copy.deepcopy(c["args"]))
+                        added.append(c)
+                    except MPilotError as exc:
+                        res.observe("consumer not added: %s" % type(exc).__name__)
+                for attempt in range(3):
+                    log.emit("op-begin", op="PROGRAM-RUN", attempt=attempt)
+                    try:
+                        program.run()
+                        break
+                    except SimAbort:
+                        raise
+                    except MPilotError as exc:
+                        # a consumer failed legitimately: drop it (and what depends on it) and let the program run on
+                        res.probe("consumer failed legitimately (still checked)")
+                        bad = [n for n, cm in program.commands.items() if not cm.is_finished]
+                        if not bad:
+                            break
+                        del program.commands[bad[0]]
+                    except Exception as exc:  # noqa
+                        res.observe("non-MPilot exception from program.run(): %s" % type(exc).__name__)
+                        break
+                check_all(added[-1]["name"] if added else "?", "and program.run() drove the evaluation")
+                res.probe("evaluation driven by program.run()")
+            for c in (sc["consumers"] if sc.get("drive") != "program-run" else []):
                 try:
                     program.add_command(program.find_command_class(c["cmd"]), c["name"], copy.deepcopy(c["args"]))
                 except MPilotError as exc:
